@@ -342,6 +342,93 @@ func makeBFS(c *cfg, cnt *counters, hooks bool, depth int) *mc.BFS[op] {
 	}
 }
 
+type longTrace struct {
+	Cmp   string `json:"cmp"`
+	Order string `json:"order"`
+	N     int    `json:"n"`
+}
+
+func checkLong(tr longTrace) *mc.Failure {
+	return mc.GuardT("omap-long", tr, func() *mc.Failure {
+		c := &cfg{Keys: tr.N, Vals: 1, Cmp: tr.Cmp}
+		var cnt counters
+		s := &inst{c: c, m: newMap(c), ref: map[int]int{}, cnt: &cnt}
+		keys := make([]int, tr.N)
+		for i := range keys {
+			switch tr.Order {
+			case "asc":
+				keys[i] = i
+			case "desc":
+				keys[i] = tr.N - 1 - i
+			default:
+				if i%2 == 0 {
+					keys[i] = i / 2
+				} else {
+					keys[i] = tr.N - 1 - i/2
+				}
+			}
+		}
+		step := 0
+		do := func(o op) *mc.Failure {
+			step++
+			got := apply(s.m, o)
+			_, present := s.ref[o.A]
+			want := o.K == "set" && !present || o.K == "delete" && present
+			if o.K == "set" {
+				s.ref[o.A] = o.V
+			} else {
+				delete(s.ref, o.A)
+			}
+			if got != want {
+				return mc.Failf(step, "%v returned %v, want %v", o, got, want)
+			}
+			return nil
+		}
+		checkpoint := func(what string) *mc.Failure {
+			if f := s.observe(s.m); f != nil {
+				f.Step = step
+				f.Msg = what + ": " + f.Msg
+				return f
+			}
+			return nil
+		}
+		for i, k := range keys {
+			if f := do(op{K: "set", A: k, V: i%3 + 1}); f != nil {
+				return f
+			}
+		}
+		if f := checkpoint("after filling"); f != nil {
+			return f
+		}
+		for _, k := range keys {
+			if k%2 == 1 {
+				if f := do(op{K: "delete", A: k}); f != nil {
+					return f
+				}
+			}
+		}
+		if f := checkpoint("after deleting every second key"); f != nil {
+			return f
+		}
+		for _, k := range keys {
+			if k%2 == 0 && k >= 10 {
+				if f := do(op{K: "delete", A: k}); f != nil {
+					return f
+				}
+			}
+		}
+		if f := checkpoint("after thinning out to five keys"); f != nil {
+			return f
+		}
+		for i := len(keys) - 1; i >= 0; i-- {
+			if f := do(op{K: "set", A: keys[i], V: 7}); f != nil {
+				return f
+			}
+		}
+		return checkpoint("after refilling")
+	})
+}
+
 // zeroMap checks the zero Map: an empty read-only map.
 func zeroMap() *mc.Failure {
 	var z omap.Map[int, int]
@@ -401,6 +488,34 @@ func main() {
 				}
 				var local counters
 				return makeBFS(&cf, &local, mc.HooksEnabled, 0).Replay(c)
+			},
+		},
+		mc.Harness{
+			Name: "omap-long",
+			Explore: func(r *mc.Run) {
+				// Larger maps (several tree levels, rebuilds of the underlying tree):
+				// fixed fill / thin-out / refill histories, full observation at
+				// checkpoints.
+				var n int64
+				for _, cm := range []string{"natural", "scaled", "reversed"} {
+					for _, order := range []string{"asc", "desc", "zigzag"} {
+						tr := longTrace{Cmp: cm, Order: order, N: mc.Pick(r, 40, 120)}
+						if f := checkLong(tr); f != nil {
+							r.Violation(mc.Case{Harness: "omap-long", Trace: mc.J(tr), Msg: f.Msg, Step: f.Step})
+						}
+						n++
+					}
+				}
+				r.AddEval(n, n, n, n)
+				r.Rule("maps of 40/120 keys filled in three orders under three comparators, thinned out (every second key, then all but five) and refilled; every observer incl. all Seek targets and re-seeks at each checkpoint")
+				r.Sample(longTrace{Cmp: "reversed", Order: "zigzag", N: 40})
+			},
+			Replay: func(c mc.Case) *mc.Failure {
+				var tr longTrace
+				if err := mc.Unmarshal(c.Trace, &tr); err != nil {
+					return mc.Failf(-1, "bad trace: %v", err)
+				}
+				return checkLong(tr)
 			},
 		},
 		mc.Harness{
